@@ -1,1 +1,8 @@
-from . import helper, network  # noqa
+"""importing this package registers every contract file in the directory"""
+import importlib
+import os
+import pkgutil
+
+for _m in sorted(pkgutil.iter_modules([os.path.dirname(__file__)]), key=lambda m: m.name):
+    if _m.name != "common":
+        importlib.import_module(__name__ + "." + _m.name)
